@@ -35,6 +35,9 @@ type PrioSc struct {
 	// ReuseMap: the caller clears and reuses the map it passed as Inputs once the
 	// constructor has returned (the discipline must have taken what it needs).
 	ReuseMap bool `json:"reuse_map,omitempty"`
+	// Unit is the measured idle period of the discipline (simulated ns per idle round, 1
+	// for the shipped constants); every pause of the scenario was multiplied by it.
+	Unit int64 `json:"unit"`
 	Horizon  int64 `json:"horizon"`
 }
 
@@ -646,9 +649,100 @@ func genPrio(engine, prop string, r *simrt.SplitMix) *PrioSc {
 		sc.Ctl = append(sc.Ctl, PAction{WaitNs: int64(r.Intn(2)), Kind: pick(r, "stop2", "stop2", "graceful")})
 	}
 
+	sc.Unit = idleUnit(v1)
+	scaleTimes(sc, sc.Unit)
+
 	sc.Horizon = prioHorizon(sc)
 
 	return sc
+}
+
+// scaleTimes multiplies every pause of the scenario by the measured idle period, so that
+// "a few idle rounds" means the same whatever the discipline's polling constants are.
+func scaleTimes(sc *PrioSc, u int64) {
+	if u <= 1 {
+		return
+	}
+
+	for i := range sc.Inputs {
+		for b := range sc.Inputs[i].Bursts {
+			sc.Inputs[i].Bursts[b].Delay *= u
+		}
+	}
+
+	for i := range sc.Handlers {
+		for d := range sc.Handlers[i].Delays {
+			sc.Handlers[i].Delays[d] *= u
+		}
+	}
+
+	for i := range sc.Ctl {
+		sc.Ctl[i].WaitNs *= u
+	}
+}
+
+var idleUnits = map[bool]int64{}
+
+// idleUnit measures how much simulated time one idle round of the priority discipline
+// takes: an idle discipline is watched for a growing span until it has gone quiet (slept)
+// at least 16 times. Nothing is assumed about the library's constants.
+func idleUnit(v1 bool) int64 {
+	if u, ok := idleUnits[v1]; ok {
+		return u
+	}
+
+	u := int64(1 << 30)
+
+	for span := int64(64); span <= 1<<36; span *= 16 {
+		var q int64
+
+		runBubble(func() {
+			res := simrt.Run(simrt.Config{MaxSteps: 200_000, Horizon: time.Duration(4 * span)}, simrt.NewChoices(1, simrt.Policy{}), func() {
+				in := make(chan int, 1)
+				inputs := map[uint]<-chan int{1: in}
+
+				if v1 {
+					out := make(chan prio1.Prioritized[int], 1)
+					fb := make(chan uint, 1)
+
+					dsc, err := prio1.New(prio1.Opts[int]{Divider: prio1.FairDivider, Feedback: fb, HandlersQuantity: 1, Inputs: inputs, Output: out})
+					if err != nil {
+						return
+					}
+
+					simrt.Sleep("env:calibrate", time.Duration(span))
+					dsc.Stop()
+
+					return
+				}
+
+				dsc, err := prio2.New(prio2.Opts[int]{Divider: div2.Fair, HandlersQuantity: 1, Inputs: inputs})
+				if err != nil {
+					return
+				}
+
+				simrt.Sleep("env:calibrate", time.Duration(span))
+				simrt.Close("env:calibrate", in)
+
+				for {
+					if _, open := simrt.Recv2("env:calibrate", dsc.Output()); !open {
+						break
+					}
+				}
+			})
+
+			q = res.Quiescents
+		})
+
+		if q >= 16 {
+			u = max(1, span/q)
+			break
+		}
+	}
+
+	idleUnits[v1] = u
+
+	return u
 }
 
 func dynamicAcceptable(sc *PrioSc, h int) bool {
@@ -698,7 +792,9 @@ func dynamicAcceptable(sc *PrioSc, h int) bool {
 }
 
 func prioHorizon(sc *PrioSc) int64 {
-	var t int64 = 3000
+	u := max(1, sc.Unit)
+
+	var t int64 = 3000 * u
 
 	for _, in := range sc.Inputs {
 		for _, b := range in.Bursts {
